@@ -179,7 +179,7 @@ impl Op {
             let _ = write!(s, " clock={:?} host={}", self.clock, self.host);
         }
         if let Some(f) = &self.fault {
-            let _ = write!(s, " fault={}@{}", f.kind.name(), f.at_permille);
+            let _ = write!(s, " fault={}@{}{}", f.kind.name(), f.at_permille, if f.persist { "!" } else { "" });
         }
         if self.fail_at > 0 {
             let _ = write!(
@@ -656,6 +656,7 @@ pub struct ExecInfo {
     pub clock_reads: usize,
     pub host_reads: usize,
     pub bytes_read: u64,
+    pub persist_hits: u32,
 }
 
 /// Executes `op` on the calling thread. `with_fault`: honour `op.fault`.
@@ -687,6 +688,7 @@ pub fn exec<P: TimeZoneProvider>(op: &Op, mode: Mode<'_, P>, with_fault: bool) -
         clock_reads: ctx.clock_reads,
         host_reads: ctx.host_reads,
         bytes_read: ctx.bytes_read,
+        persist_hits: ctx.persist_hits,
     }
 }
 
